@@ -26,7 +26,7 @@ from . import units as U
 from . import world as W
 from .ops_io import IOOpsMixin
 
-REPO_CIJ = "/repo/cij/"
+REPO_CIJ = os.path.realpath(os.environ.get("CIJSIM_REPO", "/repo")) + "/cij/"
 
 
 def sha(b):
@@ -190,6 +190,48 @@ class Runner(IOOpsMixin):
                 ptr[c] += 1
                 self._run_op(c, i, progs[c][i])
 
+    # -- line-level segment: two operations of different clients as baton-passing threads ----------
+    def _run_segment(self, item, ptr):
+        progs = self.sc["programs"]
+        members = []
+        for c in item["par"]:
+            if c in ptr and ptr[c] < len(progs[c]):
+                members.append((c, ptr[c], progs[c][ptr[c]]))
+                ptr[c] += 1
+        if len(members) < 2:
+            for c, i, op in members:
+                self._run_op(c, i, op)
+            return
+        self.stats["segments_run"] += 1
+        baton = Baton(self, [m[0] for m in members], item.get("switches", []))
+        errors = []
+
+        def body(c, i, op):
+            tracer = LineTracer(self, baton=baton, me=c)
+            baton.wait_turn(c)
+            sys.settrace(tracer.global_trace)
+            try:
+                self._run_op(c, i, op, tracer=tracer, in_segment=True)
+            except BaseException as e:  # harness failure inside a thread
+                errors.append(f"{type(e).__name__}: {e}\n{traceback.format_exc()}")
+            finally:
+                sys.settrace(None)
+                self.stats["line_events"] += tracer.steps
+                baton.finish(c)
+
+        threads = [threading.Thread(target=body, args=m, name=f"client-{m[0]}") for m in members]
+        for t in threads:
+            t.start()
+        baton.start()
+        for t in threads:
+            t.join(120)
+            if t.is_alive():
+                raise RuntimeError("line-level segment did not finish (deadlock under baton passing?)")
+        if errors:
+            raise RuntimeError("segment thread failed: " + errors[0])
+        self.stats["switches"] += baton.n_switches
+        self.probe("segment_pair_" + "+".join(sorted(m[2]["op"] for m in members)))
+
     # -- one operation with retries ------------------------------------------------
     def _faults_for(self, client, i, attempt):
         if not self.session:
@@ -199,14 +241,14 @@ class Runner(IOOpsMixin):
     def _cwd_of(self, client):
         return os.path.join(self.root, self.sc["worlds"][client]["cwd"])
 
-    def _run_op(self, client, i, op, tracer=None):
+    def _run_op(self, client, i, op, tracer=None, in_segment=False):
         self.stats["ops"] += 1
         all_faults = [f for f in self.sc.get("faults", []) if f["client"] == client and f["op"] == i] if self.session else []
         attempt = 0
         while True:
             faults = self._faults_for(client, i, attempt)
             self.stats["faults_planned"] += len(faults)
-            rec, injected = self._attempt(client, i, op, attempt, faults, tracer)
+            rec, injected = self._attempt(client, i, op, attempt, faults, tracer, in_segment)
             self.stats["attempts"] += 1
             if injected and attempt < len(all_faults):
                 # the client's program is "do X; if it blew up, do X again": f planned faults allow f+1 attempts
@@ -225,10 +267,10 @@ class Runner(IOOpsMixin):
         self.seams.log("obs", sha(json.dumps(rec, sort_keys=True, default=str).encode()))
         return rec
 
-    def _attempt(self, client, i, op, attempt, faults, tracer=None):
+    def _attempt(self, client, i, op, attempt, faults, tracer=None, in_segment=False):
         kind = op["op"]
         os.chdir(self._cwd_of(client))
-        before = S.snapshot_tree(self.root) if "O-frame" in self.oracles else None
+        before = S.snapshot_tree(self.root) if ("O-frame" in self.oracles and not in_segment) else None
         self.seams.begin_op(client, i, attempt, faults)
         self.stdout.start()
         line_fault = next((f for f in faults if f["kind"] in ("cancel", "alloc-fail")), None)
@@ -241,8 +283,10 @@ class Runner(IOOpsMixin):
             tracer = LineTracer(self, fault=line_fault, who=(client, i, attempt))
             sys.settrace(tracer.global_trace)
             uninstall_trace = True
-        elif tracer is not None and line_fault is not None:
-            tracer.arm_fault(line_fault, (client, i, attempt))
+        elif tracer is not None:
+            sys.settrace(tracer.global_trace)   # a fault raised from the trace function switches tracing off: re-arm per attempt
+            if line_fault is not None:
+                tracer.arm_fault(line_fault, (client, i, attempt))
         self.seams.ctx.tracer = tracer
         handler = getattr(self, "op_" + kind.replace(".", "_"))   # unknown operation = harness error, not an observation
         try:
@@ -288,7 +332,7 @@ class Runner(IOOpsMixin):
         tb = traceback.extract_tb(e.__traceback__)
         for fr in reversed(tb):
             if fr.filename.startswith(REPO_CIJ) or "/site-packages/" in fr.filename:
-                fn = fr.filename.split("/site-packages/")[-1].replace("/repo/", "")
+                fn = fr.filename.split("/site-packages/")[-1].replace(REPO_CIJ[:-4], "")
                 return f"{fn}:{fr.name}"
         return None
 
@@ -790,6 +834,62 @@ READ_ONLY_OPS = {"calc.read", "calc.new", "cli.extract", "cli.geotherm", "io.rea
 # ---------------------------------------------------------------------------
 # line-level tracer: cancellation / allocation failure, baton passing
 # ---------------------------------------------------------------------------
+
+class Baton:
+    """Only the holder runs.  The switch list says: after n line events of the holder hand over
+    to the other thread.  Real threads, but who runs is decided here, from the scenario."""
+
+    def __init__(self, runner, names, switches):
+        self.runner = runner
+        self.names = list(names)
+        self.switches = list(switches)
+        self.events = {n: threading.Event() for n in names}
+        self.finished = set()
+        self.count = 0
+        self.n_switches = 0
+        self.current = None
+
+    def start(self):
+        self.current = self.names[0]
+        self.events[self.current].set()
+
+    def wait_turn(self, me):
+        if not self.events[me].wait(100):
+            raise RuntimeError("baton never arrived")
+        self.events[me].clear()
+
+    def other(self, me):
+        for n in self.names:
+            if n != me and n not in self.finished:
+                return n
+        return None
+
+    def maybe_switch(self, tracer):
+        if not self.switches:
+            return
+        self.count += 1
+        if self.count < self.switches[0]:
+            return
+        me = tracer.me
+        self.switches.pop(0)
+        n = self.count
+        self.count = 0
+        o = self.other(me)
+        if o is None:
+            return
+        self.n_switches += 1
+        self.runner.seams.log("switch", me, o, n)
+        self.current = o
+        self.events[o].set()
+        self.wait_turn(me)
+
+    def finish(self, me):
+        self.finished.add(me)
+        o = self.other(me)
+        if o is not None:
+            self.current = o
+            self.events[o].set()
+
 
 class LineTracer:
     """Counts `line` events of frames whose code lives under /repo/cij in the current
